@@ -79,6 +79,13 @@ def check(repo: Repo, rep: Report) -> None:
             ok = ok and r is not None and r[0] == want and u(r[1]) == f"{oth}.duetime"
         rep.ob("O1-item-order", m, mname, ok, f"ScheduledItem.{mname} does not compare `self.duetime` with `other.duetime` "
                                             f"using the operator of its name: the queue order is not the due-time order")
+        # ... and by the due time ONLY: two items are ordered the same way whatever else differs between them (an item of another
+        # scheduler instance sharing a trampoline queue must still tie, so that the queue's counter decides first-come-first-served)
+        others = sorted({f"{u(a.value)}.{a.attr}" for a in m.all_nodes() if isinstance(a, ast.Attribute) and isinstance(a.value, ast.Name)
+                         and a.value.id in ("self", oth) and a.attr != "duetime"})
+        rep.ob("O1-item-order", m, f"{mname} reads nothing but the due times", not others,
+               f"ScheduledItem.{mname} also depends on {others}: items with equal due times no longer compare equal in every queue they share, the "
+               f"priority queue's insertion counter is never consulted for them and they run out of scheduling order")
     # O2
     enq = repo.fn(PQ, "PriorityQueue.enqueue")
     item = enq.params[1]
@@ -247,6 +254,15 @@ def check(repo: Repo, rep: Report) -> None:
               and any(u(t) == f"self.{CLK}" for t in s.node.targets)]
     ok = bool(finals) and all(any(isinstance(x, ast.Name) and x.id in targets for x in ast.walk(s.node.value)) for s in finals)
     rep.ob("A1-advance-bounds", adv, "clock = target after the loop", ok, "advance_to does not leave the clock at the target")
+    # the only ways out of advance_to without moving the clock: the target is the present (or the past: an error), or a run is in
+    # progress; "nothing is queued" is not one of them -- time passes whether or not anything is due
+    for r_ in sites(adv):
+        if isinstance(r_.node, ast.Return) and r_.ctx.guards:
+            mention = sorted({u(x) for e_, _p in r_.ctx.guards for x in ast.walk(e_) if isinstance(x, ast.Attribute) and isinstance(x.value, ast.Name) and x.value.id == "self"
+                              and x.attr not in ("now", "clock", CLK, _EN)})
+            rep.ob("A1-advance-bounds", adv, f"early `return` of advance_to decided by the clock / the running flag only ({[u(e_) for e_, _p in r_.ctx.guards]})", not mention,
+                   f"advance_to returns without moving the clock depending on {mention}: with nothing queued the clock stays where it was, and "
+                   f"everything that reads `now` afterwards (time stamps, windows by time, the next relative schedule) is off by the skipped span")
     kinds_ = {p_ for s in finals for e, p_ in s.ctx.guards if isinstance(e, ast.Call) and call_name(e) == "isinstance" and u(e.args[0]) == f"self.{CLK}"}
     unguarded_ = any(not [1 for e, p_ in s.ctx.guards if isinstance(e, ast.Call) and call_name(e) == "isinstance" and u(e.args[0]) == f"self.{CLK}"] for s in finals)
     rep.ob("A1-advance-bounds", adv, f"clock = target for both clock kinds ({'any' if unguarded_ else sorted(kinds_)})", unguarded_ or kinds_ == {True, False},
